@@ -9,6 +9,7 @@ from hypothesis import strategies as st
 from aiohomekit.controller.ip.pairing import format_characteristic_list
 from vlib import vtime
 from vlib.ipworld import IpWorld
+from props._listeners import attach as attach_listeners, check_same as listeners_agree
 from vlib.runner import Layer, Property
 
 P = "C13"
@@ -173,11 +174,12 @@ def run_write(case, R):
             return False
         w.acc.on_request = hook
         p = w.pairing
-        events = []
-        p.dispatcher_connect(lambda ev: events.append(dict(ev)))
+        logs = attach_listeners(p)
+        events = logs[0]
         try:
             await p.list_accessories_and_characteristics()
-            events.clear()
+            for l_ in logs:
+                l_.clear()
             raised = None
             try:
                 res = await p.put_characteristics([(a, i, values[(a, i)]) for a, i in ids])
@@ -192,6 +194,8 @@ def run_write(case, R):
                         R.fail("C13.write-raises", f"{what}: {type(raised).__name__}: {raised}", exc=type(raised).__name__)
                     return
                 R.fail("C13.write-raises", f"{what}: {type(raised).__name__}: {raised}", exc=type(raised).__name__)
+                return
+            if not listeners_agree(R, logs, what):
                 return
             notified = {}
             for ev in events:
